@@ -132,7 +132,7 @@ func (g *Gen) genFunc(fs *FuncSpec) {
 			rv[nm] = CV{r.vals[k], fn.Signature.Results().At(k).Type()}
 		}
 		withAliases(rv, rename)
-		env := &Env{g: g, st: r.st, old: st0, vars: rv, pc: r.pc, hyp: false}
+		env := &Env{g: g, st: r.st, old: st0, vars: rv, pc: r.pc, hyp: false, frame: f}
 		for _, u := range fs.UsesRet {
 			henv := &Env{g: g, st: r.st, old: st0, vars: rv, pc: r.pc, hyp: true}
 			g.useAxiom(henv, u)
